@@ -62,12 +62,43 @@ def _probe_models(v, tier):
     return mcs, path, n
 
 
+def _outcomes(v, tier):
+    """What ProbeMech.tla can settle in, per start vector (two claimants; three claimants with start ticks up to 6 on every
+    change, up to 9 in the thorough tier): one ndjson line [start, rens] per vector, read by TraceConflict.tla."""
+    table = {}
+    runs = []
+    for cfg in ["MCProbeOutcomes2.cfg", "MCProbeOutcomes3T.cfg" if tier == "thorough" else "MCProbeOutcomes3.cfg"]:
+        # (several workers: every PrintT is one whole line; a line that does not parse is a tool error, not a smaller table)
+        r = core.tlc_mc("MCProbeOutcomes", cfg, "c08-" + cfg.replace(".cfg", ""), workers=8, timeout=2400)
+        if not r["ok"]:
+            v.violation("C08.model", {"module": "MCProbeOutcomes", "cfg": cfg}, {"tlc_error": r.get("error", "")[:2000], "cmd": r["cmd"]})
+        for l in r["prints"]:
+            if '"OUT"' not in l:
+                continue
+            m = re.match(r'^<<"OUT", "(.*)">>$', l.strip())
+            if not m:
+                raise core.ToolError("garbled outcome line from MCProbeOutcomes: %r" % l[:200])
+            d = json.loads(core._unescape_tla(m.group(1)))
+            table.setdefault(tuple(d["start"]), set()).add(tuple(d["ren"]))
+        r["prints"] = []
+        runs.append(r)
+    path = os.path.join(core.workdir("c08"), "outcomes.ndjson")
+    with open(path, "w") as f:
+        for k in sorted(table):
+            f.write(json.dumps({"start": list(k), "rens": [list(x) for x in sorted(table[k])]}) + "\n")
+    if not table:
+        raise core.ToolError("MCProbeOutcomes printed no outcomes")
+    return runs, path
+
+
 def run(tier, seed, t0):
     v = core.Verdict(PROP)
     mc, cases, ncases = _cases(tier)
     if not mc["ok"]:
         v.violation("C08.model", {"module": "MCCompare"}, {"tlc_error": mc.get("error", "")[:2000], "cmd": mc["cmd"]})
     pmcs, pcases, npc = _probe_models(v, tier)
+    omcs, outcomes = _outcomes(v, tier)
+    pmcs += omcs
     # (a) comparison + renaming replay
     ctrace = os.path.join(core.workdir("c08"), "compare.ndjson")
     csum = core.harness(["compare", "--cases", cases, "--out", ctrace])
@@ -96,7 +127,7 @@ def run(tier, seed, t0):
     tot, h, fo = daemon.collect(PROP, RESP_PREFIXES, res, per_daemon, v, args)
     total += tot
     hits |= h
-    res2 = daemon.validate("TraceConflict", "TraceConflict.cfg", files, "c08-outcome")
+    res2 = daemon.validate("TraceConflict", "TraceConflict.cfg", files, "c08-outcome", env={"OUTCOMES": outcomes})
     for r, path in zip(res2, files):
         r["viol"] = [x for x in r["viol"] if not x[0].startswith("NOTE.")] if True else r["viol"]
     notes = 0
@@ -104,7 +135,7 @@ def run(tier, seed, t0):
     tot, h, fo2 = daemon.collect(PROP, ["C08."], res2, files, v, args)
     hits |= h
     nscen, nsig = daemon.count_scenarios(files)
-    need = ["C08.outcome", "C07.probe", "C07.announce", "C09.goodbye", "C06.answered"]
+    need = ["C08.outcome", "C08.outcome-model", "C07.probe", "C07.announce", "C09.goodbye", "C06.answered"]
     vac = [x for x in need if x not in hits]
     for x in vac:
         v.note("vacuous: clause tag %s was never exercised by this run" % x)
@@ -161,7 +192,8 @@ def replay(path, seed):
     parts = daemon.split_by_daemon(out)
     res = daemon.validate("TraceRespond", "TraceRespond.cfg", parts, "c08-replay")
     daemon.collect(PROP, RESP_PREFIXES, res, parts, v, a)
-    res2 = daemon.validate("TraceConflict", "TraceConflict.cfg", [out], "c08-replay-o")
+    _, outcomes = _outcomes(v, "quick")
+    res2 = daemon.validate("TraceConflict", "TraceConflict.cfg", [out], "c08-replay-o", env={"OUTCOMES": outcomes})
     for r in res2:
         r["viol"] = [x for x in r["viol"] if not x[0].startswith("NOTE.")]
     daemon.collect(PROP, ["C08."], res2, [out], v, a)
